@@ -157,7 +157,11 @@ func (w *c02World) genPolicy(rng *kit.Rand, ns, name string) *c02Policy {
 			continue
 		}
 		seen[pat] = true
-		p.Rules = append(p.Rules, c02Rule{Pat: pat, Caps: c02GenCaps(rng)})
+		ru := c02Rule{Pat: pat, Caps: c02GenCaps(rng)}
+		if !w.TimedAt.IsZero() && rng.Chance(1, 4) {
+			ru.Expire = w.TimedAt
+		}
+		p.Rules = append(p.Rules, ru)
 	}
 	return p
 }
@@ -357,6 +361,24 @@ func (x *c02Run) build() {
 			x.newTok(fmt.Sprintf("%s/live%d", nsTag, i), "live", ns, map[string]any{"policies": ps}, "", "")
 		}
 		all := []string{"c02-all"}
+		if !w.TimedAt.IsZero() {
+			// a time-boxed grant next to a permanent one, on every mount of the subtree
+			tp := &c02Policy{NS: ns, Name: "ptimed"}
+			for _, m := range w.Mounts {
+				if strings.HasPrefix(m.NS, ns) {
+					rel := m.Abs[len(ns):]
+					tp.Rules = append(tp.Rules,
+						c02Rule{Pat: rel + "data/timed/*", Caps: []string{"read", "create", "update", "delete", "list"}, Expire: w.TimedAt},
+						c02Rule{Pat: rel + "data/perm/*", Caps: []string{"read", "create", "update", "delete", "list"}},
+						c02Rule{Pat: rel + "root/*", Caps: []string{"read", "update", "sudo"}, Expire: w.TimedAt})
+				}
+			}
+			if len(tp.Rules) > 0 {
+				x.writePolicy(tp)
+				x.newTok(nsTag+"/timed", "live", ns, map[string]any{"policies": []string{"ptimed"}}, "", "")
+				x.newTok(nsTag+"/timed+", "live", ns, map[string]any{"policies": []string{"ptimed", kit.Pick(rng, names)}}, "", "")
+			}
+		}
 		x.newTok(nsTag+"/admin", "live", ns, map[string]any{"policies": all}, "", "")
 		// revoked before use
 		rv := x.newTok(nsTag+"/revoked", "revoked", ns, map[string]any{"policies": all}, "", "")
@@ -812,6 +834,9 @@ func (x *c02Run) check(q *c02Req, vd *c02Verdict, o *c02Outcome, stage string) b
 		switch {
 		case strings.HasPrefix(cls, "policy:sudo-missing"):
 			cls = "policy:sudo-missing"
+		case strings.HasPrefix(cls, "policy:expired-grant"):
+			cls = "policy:expired-grant"
+			r.Nontrivial("expired|" + q.Op + "|" + vd.MountAbs + "|" + vd.BPath)
 		case strings.HasPrefix(cls, "policy"):
 			cls = "policy"
 		}
@@ -860,6 +885,9 @@ func (x *c02Run) check(q *c02Req, vd *c02Verdict, o *c02Outcome, stage string) b
 				return bad("C02-misrouted", fmt.Sprintf("handler saw operation %s, reference expects %s", o.Handlers[0].Op, vd.Op))
 			}
 			r.Count("authorised_handled", 1)
+			if strings.Contains(vd.Reason, "timed-grant") {
+				r.Count("timed_grant_authorised_before_expiry", 1)
+			}
 			if vd.Unauth {
 				r.Count("unauth_handled", 1)
 			}
@@ -982,7 +1010,7 @@ func (x *c02Run) mutate() {
 						// flip: keep the patterns, change the capabilities
 						np.Rules = nil
 						for _, ru := range p.Rules {
-							np.Rules = append(np.Rules, c02Rule{Pat: ru.Pat, Caps: c02GenCaps(rng)})
+							np.Rules = append(np.Rules, c02Rule{Pat: ru.Pat, Caps: c02GenCaps(rng), Expire: ru.Expire})
 						}
 					}
 					v.Policy(p.Name, np.HCL(), p.NS)
@@ -1225,7 +1253,7 @@ func c02EntPols(t *c02Tok) []string {
 
 // ---------------------------------------------------------------- the workload test
 
-func c02RunTopology(t *testing.T, r *kit.Result, seed int64, stream uint64, caseID string, nreq int, tx, cache bool) {
+func c02RunTopology(t *testing.T, r *kit.Result, seed int64, stream uint64, caseID string, nreq int, tx, cache, timed bool) {
 	rng := kit.NewRand(seed, stream)
 	// cache=true also gives the policy store its LRU (it has none when caching is disabled)
 	v := vBoot(t, vOpts{Transactional: tx, Cache: cache})
@@ -1236,6 +1264,12 @@ func c02RunTopology(t *testing.T, r *kit.Result, seed int64, stream uint64, case
 	x := &c02Run{t: t, r: r, v: v, rng: rng, caseID: caseID, w: &c02World{Policies: map[string]*c02Policy{}}}
 	x.w.NSs, x.w.Mounts = c02Topology(rng)
 	t0 := time.Now()
+	if timed {
+		// per-path expirations are whole seconds; 3-4 s ahead leaves >= 2 s in which the
+		// grants are certainly active
+		x.w.TimedAt = t0.Truncate(time.Second).Add(4 * time.Second)
+		r.Count("topologies_with_timed_grants", 1)
+	}
 	x.build()
 	t1 := time.Now()
 	defer func() {
@@ -1244,6 +1278,16 @@ func c02RunTopology(t *testing.T, r *kit.Result, seed int64, stream uint64, case
 	r.Count("topologies", 1)
 	r.Count("mounts", len(x.w.Mounts))
 	r.Count("namespaces", len(x.w.NSs))
+	var timedToks []*c02Tok
+	for _, tk := range x.w.Toks {
+		if strings.Contains(tk.Name, "/timed") {
+			timedToks = append(timedToks, tk)
+		}
+	}
+	for i := 0; i < 40 && len(timedToks) > 0 && !x.aborted; i++ {
+		tk := kit.Pick(rng, timedToks)
+		x.do(x.genReq(tk, true, x.w.policy(tk.NS, "ptimed")), "timed-before")
+	}
 	for i := 0; i < nreq && !x.aborted; i++ {
 		if rng.Chance(1, 9) {
 			x.mutate()
@@ -1265,8 +1309,39 @@ func c02RunTopology(t *testing.T, r *kit.Result, seed int64, stream uint64, case
 			}
 		}
 	}
+	if !x.w.TimedAt.IsZero() {
+		if e := x.w.TimedAt.Add(c02ExpiryMargin); e.After(latest) {
+			latest = e
+		}
+	}
 	if d := time.Until(latest); d > 0 {
 		time.Sleep(d + 50*time.Millisecond)
+	}
+	// time-boxed grants: after the harness has seen the clock pass expiration + margin the
+	// block must grant nothing (the parsed policy is still cached); permanent blocks keep working
+	for i := 0; i < 60 && len(timedToks) > 0 && !x.aborted; i++ {
+		tk := kit.Pick(rng, timedToks)
+		x.do(x.genReq(tk, true, x.w.policy(tk.NS, "ptimed")), "timed-after")
+	}
+	if !x.w.TimedAt.IsZero() {
+		for _, tk := range x.w.Toks {
+			if tk.Forged || tk.Root || strings.Contains(tk.Name, "/timed") {
+				continue
+			}
+			for _, n := range append(append([]string(nil), tk.Policies...), c02EntPols(tk)...) {
+				p := x.w.policy(tk.NS, n)
+				if p == nil || x.aborted {
+					continue
+				}
+				for _, ru := range p.Rules {
+					if !ru.Expire.IsZero() {
+						x.do(x.genReq(tk, true, p), "timed-after")
+						x.do(x.genReq(tk, true, p), "timed-after")
+						break
+					}
+				}
+			}
+		}
 	}
 	for i := 0; i < nreq/10+20 && !x.aborted && len(short) > 0; i++ {
 		x.do(x.genReq(kit.Pick(rng, short), true, nil), fmt.Sprintf("expired#%d", i))
@@ -1296,7 +1371,7 @@ func TestVerif_C02_Requests(t *testing.T) {
 		if !kit.WantCase(caseID) {
 			continue
 		}
-		c02RunTopology(t, r, seed, uint64(shard*1000+i), caseID, nreq, i%2 == 1, i%4 < 3)
+		c02RunTopology(t, r, seed, uint64(shard*1000+i), caseID, nreq, i%2 == 1, i%4 < 3 || i%3 == 0, i%3 == 0)
 		if r.NViolations() > 10 {
 			break
 		}
@@ -1313,6 +1388,9 @@ func TestVerif_C02_Requests(t *testing.T) {
 	r.Require("refused:no token", int64(ntopo*5))
 	r.Require("staleness_flips", int64(ntopo*5))
 	r.Require("topologies_with_policy_lru", int64(ntopo/2))
+	r.Require("topologies_with_timed_grants", int64(ntopo/4))
+	r.Require("timed_grant_authorised_before_expiry", int64(ntopo*4))
+	r.Require("refused:policy:expired-grant", int64(ntopo*4))
 	for _, k := range c02DeadKinds {
 		r.Require("wouldallow_refused:"+k, 2)
 	}
